@@ -1,5 +1,8 @@
 (* C04 — property theorems only: each closed by [exact], each followed by Print Assumptions. *)
-From Dastard Require Import C04.Base C04.Model C04.Spec C04.Proofs C04.Glue.
+From Coq Require Import Reals.
+From Flocq Require Import Core.
+From Dastard Require Import C04.FloatKit C04.Base C04.Model C04.Spec C04.Proofs C04.Glue C04.MixBound.
+Open Scope Z_scope.
 
 (* ---------- every history of the model passes the observable checker (uninterrupted deliveries) ---------- *)
 (* For every geometry, NSAMP, dropped-frame oracle and every sequence of reads (any chunking) and mix requests:
@@ -205,3 +208,20 @@ Theorem reader_panic_refuted_pre_fix :
   tick_kind (reader_tick wit_g [] (zslice wit_S4 240 240) 2) = (3, [28; 192]).
 Proof. exact reader_panic_refuted_pre_fix_proof. Qed.
 Print Assumptions reader_panic_refuted_pre_fix.
+
+(* ---------- the float64 mix value against the exact real value ---------- *)
+(* For every finite error scale s with |s| <= 4 (mix fraction / NSAMP; s <> 0), every carried feedback value p and
+   every error sample e in 0..65535: the value MixRetardFb's mirror computes with three float64 roundings
+   (product, sum, + 0.5), clipping and truncation differs from  clamp_0^65535 (p + s * int16 e)  -- computed in the
+   reals -- by at most 1/2 + 2^-34.  FR is the real value of a primitive float (Flocq's B2R o Prim2B); the
+   proof uses Flocq's correctness theorems for the IEEE operations, hence the float specification axioms of
+   Coq's Floats library and the classical axioms of the real numbers appear under Print Assumptions.
+   Not covered: |s| > 4 (the rounding error of the product grows with |s|; the statement would need a bound
+   depending on s), s infinite or NaN. *)
+Theorem fb_mix_real_bound_partial :
+  forall s p e, FloatKit.Ffin s -> (Rabs (FloatKit.FR s) <= 4)%R -> 0 <= p <= 65535 -> 0 <= e <= 65535 ->
+    (s =? 0)%float = false ->
+    (Rabs (IZR (mix_value s p e) - MixBound.clamp16 (IZR p + FloatKit.FR s * IZR (int16 e)))
+      <= /2 + bpow radix2 (-34))%R.
+Proof. exact MixBound.fb_mix_real_bound_proof. Qed.
+Print Assumptions fb_mix_real_bound_partial.
